@@ -57,7 +57,7 @@ pub struct Prof {
     pub hold: u64,
     pub max_buf: usize,
 }
-pub const CLEAN: Prof = Prof { max_writes: 24, max_size: 48, p_empty: 0, p_vectored: 250, p_flush: 50, p_yield: 200, p_shutdown: 1000, p_write_after_shutdown: 0, p_drop_mid: 0, p_read_eof: 1000, p_fill: 400, p_reader_absent: 0, hold: 0, max_buf: 64 };
+pub const CLEAN: Prof = Prof { max_writes: 24, max_size: 48, p_empty: 40, p_vectored: 250, p_flush: 50, p_yield: 200, p_shutdown: 1000, p_write_after_shutdown: 0, p_drop_mid: 0, p_read_eof: 1000, p_fill: 400, p_reader_absent: 0, hold: 0, max_buf: 64 };
 
 pub fn gen_wops(r: &mut Prng, p: &Prof) -> Vec<WOp> {
     let mut v = vec![];
